@@ -117,9 +117,24 @@ func Generate(r *lp.Rng, o Opts) *Design {
 		s := g.d.Services[0]
 		id := func() *Att { return &Att{Type: &Type{Prim: "String"}, Val: &Validation{Pattern: "^[a-z]+$"}} }
 		m := &Method{Name: "locate", NoSecurity: o.Security,
-			Payload: &Att{Type: &Type{IsObject: true, Object: []*Field{{Name: "warehouse", Att: id()}, {Name: "item", Att: id()}}}, Required: []string{"warehouse", "item"}},
-			HTTP:    &HTTPMap{Verb: "GET", Path: "/warehouses/{warehouse}/items/{item}", MorePaths: []string{"/items/{item}/in/{warehouse}"}}}
+			Payload: &Att{Type: &Type{IsObject: true, Object: []*Field{{Name: "warehouse", Att: id()}, {Name: "item", Att: id()},
+				// a query parameter whose name starts with the name of a path parameter
+				{Name: "item_kind", Att: &Att{Type: &Type{Prim: "String"}}}}}, Required: []string{"warehouse", "item", "item_kind"}},
+			HTTP: &HTTPMap{Verb: "GET", Path: "/warehouses/{warehouse}/items/{item}", MorePaths: []string{"/items/{item}/in/{warehouse}"},
+				Params: []Mapped{{Attr: "item_kind"}}}}
 		s.Methods = append(s.Methods, m)
+	}
+	if o.Index%8 == 7 {
+		// a user type named like the type goa derives for the inline payload of an EARLIER method, used only
+		// inside the payload of a later one
+		s := g.d.Services[0]
+		g.d.Types = append(g.d.Types, &TypeDef{Name: "FooPayload", Kind: "type", Att: &Att{Type: &Type{IsObject: true, Object: []*Field{
+			{Name: "label", Att: &Att{Type: &Type{Prim: "String"}}}, {Name: "weight", Att: &Att{Type: &Type{Prim: "Int"}}}}}}})
+		foo := &Method{Name: "foo", NoSecurity: o.Security, HTTP: &HTTPMap{Verb: "POST", Path: "/foo"},
+			Payload: &Att{Type: &Type{IsObject: true, Object: []*Field{{Name: "note", Att: &Att{Type: &Type{Prim: "String"}}}}}}}
+		bar := &Method{Name: "bar", NoSecurity: o.Security, HTTP: &HTTPMap{Verb: "POST", Path: "/bar"},
+			Payload: &Att{Type: &Type{IsObject: true, Object: []*Field{{Name: "inner", Att: &Att{Type: &Type{Ref: "FooPayload"}}}, {Name: "count", Att: &Att{Type: &Type{Prim: "Int"}}}}}}}
+		s.Methods = append([]*Method{foo}, append(s.Methods, bar)...)
 	}
 	if o.Index%10 == 5 || o.Index%10 == 8 {
 		// file servers: one on a path of its own, one with a wildcard, and one sharing its request path with an
